@@ -486,7 +486,7 @@ var c20Sched = pbt.Register(pbt.Prop[C20Sched]{
 		}
 		return push >= 1 && pullers >= 2, []string{"sched_" + c.Kind}, nil
 	},
-	Quick: 9600, Thorough: 320000,
+	Quick: 9600, Thorough: 120000,
 })
 
 func TestC20Sched(t *testing.T) { pbt.Run(t, c20Sched) }
@@ -512,7 +512,7 @@ func c20EnumConfigs() []C20Sched {
 }
 
 func TestC20SchedEnum(t *testing.T) {
-	limit := pbt.Pick(1200, 60000) // schedules per configuration
+	limit := pbt.Pick(1200, 30000) // schedules per configuration
 	cfgs := c20EnumConfigs()
 	var total int64
 	for ci, cfg := range cfgs {
@@ -663,7 +663,7 @@ var c20Seq = pbt.Register(pbt.Prop[C20Seq]{
 		}
 		return max >= 2, labels, nil
 	},
-	Quick: 32000, Thorough: 600000,
+	Quick: 32000, Thorough: 300000,
 })
 
 func TestC20Seq(t *testing.T) { pbt.Run(t, c20Seq) }
